@@ -592,6 +592,35 @@ class Program:
                     st.append(c)
         return seen
 
+    def param_names(self, name):
+        """parameter names of a function as its users see them: from its declaration in a header under include/ when
+        there is one (the names in a definition are private to it), else from the definition"""
+        ps = self.protos.get(name, [])
+        for p in ps:
+            if not p.get("def") and "/include/" in p.get("file", ""):
+                return [x["n"] for x in p["params"]]
+        if name in self.fns:
+            return [x["n"] for x in self.fns[name].d["params"]]
+        return [x["n"] for x in ps[0]["params"]] if ps else []
+
+    def region(self, root, cut=()):
+        """the function `root` together with the file-local (static, same file) helpers it calls, transitively: the
+        unit a rule about `root` looks at, so that moving statements into or out of a private helper changes nothing"""
+        f0 = self.fn(root)
+        out, st = [], [root]
+        seen = set()
+        while st:
+            x = st.pop()
+            if x in seen or x in cut:
+                continue
+            seen.add(x)
+            f = self.fns.get(x)
+            if f is None or (x != root and (not f.d.get("static") or f.file != f0.file)):
+                continue
+            out.append(f)
+            st.extend(sorted(self.callees(f)))
+        return out
+
     def call_path(self, src, dst, cut=()):
         """a call chain src -> ... -> dst (list of names) or None"""
         prev = {src: None}
